@@ -6,7 +6,7 @@ from .sqlgen import INT, TEXT
 
 TEXT_FEATS = dict(div=True, mod=True, window=True, setops_all=False, any_sub=False, semi_anti=False,
                   ts=False, strftime=False, casts=True, like=True, ifnull=False, nulls_order=True,
-                  unqualified=0.4, redundant_parens=0.15, cte_cols=False)
+                  unqualified=0.4, redundant_parens=0.15, cte_cols=False, join_no_on=0.12)
 
 CAST_TYPES = ["INT", "BIGINT", "SMALLINT", "DECIMAL(10, 2)", "VARCHAR(10)", "VARCHAR", "TEXT", "DOUBLE", "FLOAT",
               "DATE", "TIMESTAMP", "BOOLEAN", "CHAR(3)"]
